@@ -389,9 +389,9 @@ class Element(Node):
         prefix = self.get_nsprefix(self.qname[0])
         self.tagName = self._prefixed(prefix, self.qname[1])
         if text is not None:
-            self.addText(text)
+            self.addText(text, check_grammar)
         if cdata is not None:
-            self.addCDATA(cdata)
+            self.addCDATA(cdata, check_grammar)
 
         allowed_attrs = self.allowed_attributes()
         if allowed_attrs is not None:
